@@ -430,6 +430,49 @@ def namespaced_family(ctx):
             continue
         if a != b:
             ctx.violation('roundtrip', case, 'selectorText %r re-resolves to %r, the selector holds %r' % (s1.selectorText, b, a), KNOWN_PRED)
+    # a namespace separator with nothing after it is no selector: the member and the list are rejected
+    for text in ['b |', 'b *|', 'b p|', 'b > |', 'a, b |', '|', '*|', 'p|', 'b:not(p|)', 'b |, c', 'b[p|]']:
+        for raising in (True, False):
+            impl.reset(raise_exceptions=raising)
+            case = {'family': 'dangling-namespace-separator', 'text': text, 'raising': raising}
+            ctx.case(('dangling', text, raising))
+            try:
+                try:
+                    sl = cssutils.css.SelectorList((text, dict(D)))
+                    accepted = sl.wellformed and sl.length > 0 and bool(sl.selectorText)
+                    left = sl.selectorText
+                except xml.dom.DOMException:
+                    accepted, left = False, None
+                sh = cssutils.parseString('@namespace p "http://p"; %s {left:0} k{m:n}' % text)
+                kept = [r.selectorText for r in sh.cssRules if r.type == r.STYLE_RULE]
+            except Exception as e:  # noqa
+                ctx.violation('list-all-or-nothing', case, '%s: %s' % (type(e).__name__, e), KNOWN_PRED)
+                continue
+            finally:
+                cssutils.log.raiseExceptions = True
+            if accepted or kept != ['k']:
+                ctx.violation('list-all-or-nothing', case, 'SelectorList(%r) %s (text %r); in a sheet the style rules are %r' % (
+                    text, 'accepted' if accepted else 'rejected', left, kept), KNOWN_PRED)
+    # comments in selectors and the serializer's keepComments: the items and the specificity stay
+    for text in ['a /*c*/b', 'a /*x*//*y*/.b', '.a /*c*/.b', 'a:hover /*c*/b', 'a /*c*/*', 'a/*c*/ b', 'a /*c*/ b', 'a/*c*/.b', 'a /*c*/> b', 'a /*c*/[x]', 'a, b /*c*/c']:
+        impl.reset()
+        case = {'family': 'comments-off', 'text': text}
+        ctx.case(('comments-off', text))
+        try:
+            s1 = cssutils.css.SelectorList(text)
+            cssutils.ser.prefs.keepComments = False
+            out = s1.selectorText
+            cssutils.ser.prefs.useDefaults()
+            s2 = cssutils.css.SelectorList(out)
+            from harness import sem_dom as S_
+            a = [(S_.sem_selector(x), tuple(x.specificity)) for x in s1]
+            b = [(S_.sem_selector(x), tuple(x.specificity)) for x in s2]
+        except Exception as e:  # noqa
+            cssutils.ser.prefs.useDefaults()
+            ctx.violation('roundtrip', case, '%s: %s' % (type(e).__name__, e), KNOWN_PRED)
+            continue
+        if a != b:
+            ctx.violation('roundtrip', case, 'with keepComments off %r is written %r: items and specificity %r, the selector holds %r' % (text, out, b, a), KNOWN_PRED)
     SHEET = '@namespace "http://d"; @namespace p "http://p"; a, p|b, c {left:0} z {top:0}'
     for member in ['b.k', 'p|c', 'x:not(p|y)', '*|w', '|v', 'a']:
         for how in ('setitem0', 'setitem1', 'append'):
